@@ -11,7 +11,7 @@
 EXTENDS Integers, Sequences, FiniteSets, TLC, Json
 
 Header == "min 1\ns.t.\n    0 <= 1\n"
-Data == "where\n    let A1 = [3, 1, 2]\n    let E0 = []\n    let M2 = [[1, 2], [3, 4]]\n    let S1 = \"text\"\n    let B1 = true\n    let H1 = [1, \"a\"]\n" \o
+Data == "where\n    let A1 = [3, 1, 2]\n    let E0 = []\n    let M2 = [[1, 2], [3, 4]]\n    let S1 = \"text\"\n    let B1 = true\n    let H1 = [1, \"a\"]\n    let X3 = [[1, 2], [\"a\", \"b\"]]\n" \o
         "    let G = Graph {\n        N1 -> [N2: 2, N3: 1],\n        N2 -> [N3: 3],\n        N3\n    }\n"
 Decl == "define\n    x as Real(0, 5)\n    p as Boolean\n    x_i as Boolean for i in 0..4\n    z_u as NonNegativeReal(0, 9) for u in nodes(G)"
 \* row context: node u, edge e and enumerate-tuple t are in scope of every row template
@@ -54,7 +54,9 @@ GlobalFillers == {"2", "-1", "1.5", "0", "7", "true", "\"s\"", "S1", "B1", "A1",
                   "max { 1, 2 }", "abs { 3 }", "avg { 1, 2 }", "sum(j in 0..2) { j }", "H1", "H1[0]", "H1[1]", "union(E0, [\"a\"])", "union(A1, [4])", "zip(A1, A1)", "enumerate(A1)",
                   "union(A1, [\"a\"])", "intersection(A1, [\"a\"])", "difference([\"a\"], A1)", "union([true], A1)", "difference(A1, 1)",
                   \* set functions over two equal arguments that are no collections
-                  "difference(3, 3)", "union(\"a\", \"a\")", "intersection(G, G)", "union(B1, B1)"}
+                  "difference(3, 3)", "union(\"a\", \"a\")", "intersection(G, G)", "union(B1, B1)",
+                  \* a matrix whose rows differ in element kind: its static kind must not be that of its first row
+                  "X3", "X3[1]", "X3[1][0]", "X3[0][1]"}
 RowFillers == GlobalFillers \cup {"u", "e", "t", "i"}
 FillersFor(t) == IF t.where = "row" THEN RowFillers ELSE GlobalFillers
 
